@@ -1302,13 +1302,24 @@ var sharedChainProp = vh.Define("C18", "shared-chain", func(c SharedChainCase, r
 			r.Failf("not-pure-shared-input", "bundle %d serialises differently after OTHER bundles were signed with the same certificate chain value (first difference at %d): signing wrote into shared state", i, firstDiff(buf.Bytes(), o.bytes))
 			return
 		}
-		if len(o.b.Signatures.Authorities) != len(o.want) {
-			r.Failf("authorities", "bundle %d has %d authorities, want %d", i, len(o.b.Signatures.Authorities), len(o.want))
-			return
-		}
+		// How the authorities are laid out (all chain elements in order, or repeated certificates
+		// listed once) is the signer's business; what must hold is that every authority is a
+		// certificate this bundle's OWN signers supplied and that each vouched subset points at
+		// its own signer's leaf.
 		for j, ac := range o.b.Signatures.Authorities {
-			if !bytes.Equal(ac.Cert.Raw, o.want[j]) {
-				r.Failf("not-pure-shared-input", "bundle %d authority %d is not the certificate its own signers supplied (another bundle's signer overwrote it through the shared chain)", i, j)
+			own := false
+			for _, w := range o.want {
+				own = own || bytes.Equal(ac.Cert.Raw, w)
+			}
+			if !own {
+				r.Failf("not-pure-shared-input", "bundle %d authority %d is not a certificate its own signers supplied (another bundle's signer overwrote it through the shared chain)", i, j)
+				return
+			}
+		}
+		leaves := [][]byte{sharedDER[0], o.want[len(o.want)-1]}
+		for k, vs := range o.b.Signatures.VouchedSubsets {
+			if k >= len(leaves) || vs.Authority >= uint64(len(o.b.Signatures.Authorities)) || !bytes.Equal(o.b.Signatures.Authorities[vs.Authority].Cert.Raw, leaves[k]) {
+				r.Failf("not-pure-shared-input", "bundle %d: vouched subset %d does not point at its own signer's leaf certificate", i, k)
 				return
 			}
 		}
